@@ -37,7 +37,9 @@ func RenderODT(d Doc) Rendered {
 	for l := 1; l <= 9; l++ {
 		fmt.Fprintf(&b, `<text:list-level-style-number text:level="%d" style:num-format="1" style:num-suffix="."/>`, l)
 	}
-	b.WriteString(`</text:list-style></office:automatic-styles><office:body><office:text>`)
+	b.WriteString(`</text:list-style>`)
+	b.WriteString(odtSheetStyles(d.Sheet, "auto")) // the sheet's automatic styles, in sheet order
+	b.WriteString(`</office:automatic-styles><office:body><office:text>`)
 
 	bases := make([]int, len(d.Body))
 	tblNo := 0
@@ -63,7 +65,11 @@ func RenderODT(d Doc) Rendered {
 			odtChildren(&b, blk, cnt, i)
 			b.WriteString(`</text:h>`)
 		case "S": // a heading of level Lvl styled with style number Sty of the sheet
-			fmt.Fprintf(&b, `<text:h text:style-name="%s" text:outline-level="%d">`, odtSheetName(blk.Sty, d.Sheet), blk.Lvl)
+			if blk.How == "noattr" { // a heading that relies on its style for the level
+				fmt.Fprintf(&b, `<text:h text:style-name="%s">`, odtSheetName(blk.Sty, d.Sheet))
+			} else {
+				fmt.Fprintf(&b, `<text:h text:style-name="%s" text:outline-level="%d">`, odtSheetName(blk.Sty, d.Sheet), blk.Lvl)
+			}
 			odtChildren(&b, blk, cnt, i)
 			b.WriteString(`</text:h>`)
 		case "LI":
@@ -142,30 +148,7 @@ func RenderODT(d Doc) Rendered {
 		fmt.Fprintf(&s, `<style:style style:name="Heading_20_%d" style:display-name="Heading %d" style:family="paragraph" style:parent-style-name="Heading" style:default-outline-level="%d" style:class="text"/>`, n, n, n)
 		fmt.Fprintf(&s, `<style:style style:name="Custom%da" style:display-name="Custom %c A" style:family="paragraph" style:parent-style-name="Heading_20_%d"/>`, n, 'A'+n-1, n)
 	}
-	for i, st := range d.Sheet {
-		name := odtSheetName(i+1, d.Sheet)
-		attrs := ""
-		switch st.Decl {
-		case "builtin":
-			attrs = fmt.Sprintf(` style:display-name="Heading %d" style:default-outline-level="%d" style:class="text"`, st.Lvl, st.Lvl)
-		case "bare": // the heading style name without a default outline level (the attribute is optional)
-			attrs = fmt.Sprintf(` style:display-name="Heading %d" style:class="text"`, st.Lvl)
-		case "outline":
-			attrs = fmt.Sprintf(` style:default-outline-level="%d"`, st.Lvl)
-		case "none":
-		default:
-			panic("wpw: style declaration " + st.Decl + " is not in the ODT alphabet")
-		}
-		switch {
-		case st.Based >= 1:
-			attrs += fmt.Sprintf(` style:parent-style-name="%s"`, odtSheetName(st.Based, d.Sheet))
-		case st.Based == -1:
-			attrs += ` style:parent-style-name="Standard"`
-		case st.Based == -2:
-			attrs += ` style:parent-style-name="Undefined_20_Style"`
-		}
-		fmt.Fprintf(&s, `<style:style style:name="%s" style:family="paragraph"%s/>`, name, attrs)
-	}
+	s.WriteString(odtSheetStyles(d.Sheet, "doc"))
 	s.WriteString(`</office:styles><office:automatic-styles><style:page-layout style:name="pm1"><style:page-layout-properties fo:page-width="21cm" fo:page-height="29.7cm" fo:margin-top="2cm" fo:margin-bottom="2cm" fo:margin-left="2cm" fo:margin-right="2cm"/></style:page-layout></office:automatic-styles>`)
 	s.WriteString(`<office:master-styles><style:master-page style:name="Standard" style:page-layout-name="pm1">`)
 	if d.Hdr == 1 {
@@ -282,4 +265,41 @@ func odtSheetName(n int, sheet []Style) string {
 		return fmt.Sprintf("Heading_20_%d", sheet[n-1].Lvl)
 	}
 	return fmt.Sprintf("S%d", n)
+}
+
+// odtSheetStyles writes the sheet's styles that live in the given place, in sheet order.
+func odtSheetStyles(sheet []Style, loc string) string {
+	var s strings.Builder
+	for i, st := range sheet {
+		place := st.Loc
+		if place == "" {
+			place = "doc"
+		}
+		if place != loc {
+			continue
+		}
+		name := odtSheetName(i+1, sheet)
+		attrs := ""
+		switch st.Decl {
+		case "builtin":
+			attrs = fmt.Sprintf(` style:display-name="Heading %d" style:default-outline-level="%d" style:class="text"`, st.Lvl, st.Lvl)
+		case "bare": // the heading style name without a default outline level (the attribute is optional)
+			attrs = fmt.Sprintf(` style:display-name="Heading %d" style:class="text"`, st.Lvl)
+		case "outline":
+			attrs = fmt.Sprintf(` style:default-outline-level="%d"`, st.Lvl)
+		case "none":
+		default:
+			panic("wpw: style declaration " + st.Decl + " is not in the ODT alphabet")
+		}
+		switch {
+		case st.Based >= 1:
+			attrs += fmt.Sprintf(` style:parent-style-name="%s"`, odtSheetName(st.Based, sheet))
+		case st.Based == -1:
+			attrs += ` style:parent-style-name="Standard"`
+		case st.Based == -2:
+			attrs += ` style:parent-style-name="Undefined_20_Style"`
+		}
+		fmt.Fprintf(&s, `<style:style style:name="%s" style:family="paragraph"%s/>`, name, attrs)
+	}
+	return s.String()
 }
